@@ -333,9 +333,24 @@ class Connection(object):
                 raise
             if t is KeyboardInterrupt and self._config["propagate_KeyboardInterrupt_locally"]:
                 raise
-            self._send(consts.MSG_EXCEPTION, seq, self._box_exc(t, v, tb))
+            self._send_exc(seq, t, v, tb)
         else:
-            self._send(consts.MSG_REPLY, seq, self._box(res))
+            try:
+                self._send(consts.MSG_REPLY, seq, self._box(res))
+            except EOFError:
+                raise
+            except Exception:
+                # the result could not be encoded (nothing was transmitted): answer with that error instead
+                self._send_exc(seq, *sys.exc_info())
+
+    def _send_exc(self, seq, t, v, tb):  # dispatch
+        try:
+            self._send(consts.MSG_EXCEPTION, seq, self._box_exc(t, v, tb))
+        except EOFError:
+            raise
+        except Exception:
+            # the exception's own data could not be encoded: report the encoding failure
+            self._send(consts.MSG_EXCEPTION, seq, self._box_exc(*sys.exc_info()))
 
     def _box_exc(self, typ, val, tb):  # dispatch?
         return vinegar.dump(typ, val, tb,
